@@ -423,6 +423,20 @@ func genMessages(repo, out string, info *codecInfo) {
 		}
 	}
 	sort.Strings(names)
+	dispatchFacts := ""
+	for _, fname := range []string{"requests.go", "responses.go"} {
+		f := parseFile(filepath.Join(dir, fname))
+		fn := findFunc(f, map[string]string{"requests.go": "UnmarshalRequest", "responses.go": "UnmarshalResponse"}[fname], "")
+		conds := []string{}
+		if fn != nil {
+			for _, st := range fn.Body.List {
+				if is, ok := st.(*ast.IfStmt); ok {
+					conds = append(conds, leanStr(src(is.Cond)))
+				}
+			}
+		}
+		dispatchFacts += fmt.Sprintf("def %sChecks : List String := [%s]\n", strings.TrimSuffix(fname, ".go"), strings.Join(conds, ", "))
+	}
 
 	leaf := func(si *structInfo, fld *ast.Field, name string) string {
 		typ := src(fld.Type)
@@ -507,6 +521,7 @@ func genMessages(repo, out string, info *codecInfo) {
 	}
 	fmt.Fprintf(&b, "/-- messages/requests.go: function code ↦ request type -/\ndef requests : List (Nat × String) := %s\n\n", reqTable)
 	fmt.Fprintf(&b, "/-- messages/responses.go: function code ↦ response type -/\ndef responses : List (Nat × String) := %s\n\n", respTable)
+	b.WriteString("/-- conditions of the if statements of UnmarshalRequest / UnmarshalResponse, in order -/\n" + dispatchFacts + "\n")
 	b.WriteString("end Uhppote.Gen.Messages\n")
 	writeIfChanged(filepath.Join(out, "Messages.lean"), b.String())
 }
